@@ -179,6 +179,7 @@ pub fn lanes_for(prop: &str, tier: &str, seed: u64) -> Vec<Scenario> {
             v.extend(gen::lane_early_exit(seed));
             v.extend(gen_cli::lane_script_limits(seed));
             v.extend(gen_cli::lane_included_limits(seed));
+            v.extend(gen_cli::lane_flood(seed));
             v.extend(gen_cli::lane_cli_timing(seed, if thorough { 1 } else { 4 }));
             v.extend(gen_cli::lane_random(Tier::Lib, seed, n_rand_lib, "C14"));
             v.extend(gen_cli::lane_random(Tier::Cli, seed, n_rand_cli, "C14"));
